@@ -11,7 +11,7 @@ One request per line, one answer per line, flushed.
   progress <body> <utxosReply> <genesisOk> <blocksReply> <poolReply> <genesis> <now> <interval> <limit>
            <txid> <index> <nl> (txid index)* <nc> (<k> txid*)* <np> txid*
       -> 400 | 500 | panic | 200 <label> <currentBlockTimestamp>
-  replies: 0 ok, 1 error, 2 undecodable; blocksReply 3 = an empty list; body: 0 undecodable, 1 null, 2 value
+  replies: 0 ok, 1 error, 2 undecodable; blocksReply 3 = an empty list (no block at that height: the pool is consulted); body: 0 undecodable, 1 null (answered 400), 2 value
 -/
 import Wallet.Model
 open Wallet
